@@ -2,24 +2,24 @@ NOT_APPLICABLE = {}
 CHECKS["C16"] = dict(
     engine="E1",
     technique="exhaustive enumeration of (n, k / test_size, shuffle schedule) executions of the real splitting code; RNG owned through the verif-hooks seam; deviation-bounded schedules above n=6",
-    text="Every (n,k) with 2<=k<=n<=64 unshuffled, every permutation the shuffle can draw for n<=7 (n<=9 thorough) and every schedule with <=2 non-identity Fisher-Yates steps up to n=16 (32), each judged by the partition / complement / balance / leak oracle with a spy estimator. This is a complete enumeration of the stated bounds, which is the right level for index bookkeeping code whose defects are off-by-one and misplacement errors that show on small n.",
+    text="Every (n,k) with 2<=k<=n<=64 unshuffled, every permutation the shuffle can draw for n<=7 (n<=9 thorough) and every schedule with <=2 non-identity Fisher-Yates steps up to n=16 (24; <=3 steps up to n=13 in the thorough tier), fold counts around 256/512 and leave-one-out on up to 513 rows, each judged by the partition / complement / balance / leak oracle with a spy estimator. This is a complete enumeration of the stated bounds, which is the right level for index bookkeeping code whose defects are off-by-one and misplacement errors that show on small n.",
     note="Assumes the chooser-driven Fisher-Yates enumerates exactly the permutations rand's shuffle can produce; rows identified by content; n>64 and non-listed test sizes not explored.",
 )
 CHECKS["C12"] = dict(
     engine="E1",
-    technique="exhaustive enumeration of (lattice point sequence, k, max_iter, complete k-means++ answer sequence) executions of the real fit, and of (point sequence, centroid multiset) for the BBD-tree assignment step; RNG owned through the verif-hooks seam (64-point cutoff grid covering every selectable index, plus edge answers)",
+    technique="exhaustive enumeration of (lattice point sequence, k, max_iter, complete k-means++ answer sequence) executions of the real fit, and of (point sequence, centroid multiset) for the BBD-tree assignment step; RNG owned through the verif-hooks seam (64-point cutoff grid covering every selectable index, plus edge answers); assignment step also on structured sets of 36..200 rows in 1..3 dimensions",
     text="Every seeding schedule of every small lattice data set is executed and judged against the definition (centroid = mean of last-assigned rows, sizes = counts, predict = nearest centroid, BBD assignment = exhaustive search). Completeness over the RNG is exactly what repeated unseeded fits cannot give; the bounded lattice is where ties, duplicates, coincident and far centroids, and empty clusters all occur.",
     note="Cutoff draws restricted to 64 grid mid-points (+ the two edge values): sufficient to reach every index of positive weight on the integer lattices used. Larger data only through 4 structured families with deviation-bounded seeding.",
 )
 CHECKS["C10"] = dict(
     engine="E1",
-    technique="exhaustive enumeration of SVC fits over every visiting order ((n!)^(1+epochs) Fisher-Yates answer sequences via the verif-hooks seam) of every small lattice training set x labelling x kernel x (C,tol); exhaustive SVR and kernel enumeration; KKT / feasibility / kernel-expansion oracle",
+    technique="exhaustive enumeration of SVC fits over every visiting order ((n!)^(1+epochs) Fisher-Yates answer sequences via the verif-hooks seam) of every small lattice training set x labelling x kernel x (C,tol); exhaustive SVR (lattice sets n<=4 (5), structured sets n in {8,20,72} (40,80)) and kernel enumeration; KKT / feasibility / kernel-expansion oracle",
     text="All schedules of the unseeded sample order are explored for n=4 (n=5 thorough) and deviation-bounded for n=6..8; each fitted model is read back through serde and checked for box feasibility in the direction of its sample's class, zero sum, equality of the decision function with the closed-form kernel expansion and the sign rule. SVR: epsilon-insensitive KKT within tol at every training point. This is the level at which 'for every visiting order' can be decided at all.",
     note="Support vectors matched to rows by value (any consistent matching accepted); KKT slack tol+1e-9; sigmoid kernel excluded from SVR optimality as the property states.",
 )
 CHECKS["C06"] = dict(
     engine="E1",
-    technique="exhaustive enumeration of forest configurations (data catalogue x seed block x n_trees x m x limits x keep_samples x criterion) with the real seeded RNG, plus EVERY bootstrap / feature-shuffle outcome of tiny forests through the verif-hooks seam; aggregation oracle against the forest's own deserialised member trees",
+    technique="exhaustive enumeration of forest configurations (data catalogue x seed block x n_trees x m x limits x keep_samples x criterion) with the real seeded RNG, plus EVERY bootstrap / feature-shuffle outcome of tiny forests through the verif-hooks seam; aggregation oracle against the forest's own deserialised member trees, in-bag-mask consistency (a member tree only predicts values its stored in-bag rows can produce)",
     text="Each fit is repeated and compared bit for bit (seed reproducibility); the forest prediction and the out-of-bag prediction are recomputed from the deserialised member trees and the stored in-bag masks (plurality / mean, ties in the library's favour); stratification, label values, target range and tree count are checked. For n=4 all bootstrap samples of 1-2 trees are enumerated, so the in-bag masks themselves are validated against the draws.",
     note="Seeds outside the enumerated block are not explored; member trees are trusted to survive serde (C19). OOB rows with no out-of-bag tree are skipped.",
 )
@@ -67,7 +67,7 @@ CHECKS["C03"] = dict(
 )
 CHECKS["C11"] = dict(
     engine="E1",
-    technique="exhaustive enumeration of naive-Bayes training sets over each variant's small alphabet (n<=4 (5) rows, p<=2, every labelling, 4 label-value maps, alpha in {0.01,1,5}, priors on/off, binarisation thresholds), structured families to 120 rows / 8 features / 5 classes, and offset lattices; closed-form sufficient-statistics and MAP oracle",
+    technique="exhaustive enumeration of naive-Bayes training sets over each variant's small alphabet (n<=4 (5) rows, p<=2, every labelling, 4 label-value maps, alpha in {0.01,1,5}, priors on/off, binarisation thresholds incl. a negative one; a tight-well-separated-clusters Gaussian alphabet), structured families to 120 rows / 8 features / 5 classes, and offset lattices; closed-form sufficient-statistics and MAP oracle",
     text="Fitted statistics are compared with closed forms written from the statement (exact rational, then ln); predictions must be in the arg-max set of the reference MAP score (ties: any). Non-contiguous and negative label values, empty categorical classes, skewed priors and user priors are all enumerated.",
     note="Rows with values unseen in training are compared but not judged (outside the statement); Gaussian instances with zero within-class variance are outside 'valid training set'.",
 )
@@ -79,7 +79,7 @@ CHECKS["C04"] = dict(
 )
 CHECKS["C05"] = dict(
     engine="E1",
-    technique="exhaustive enumeration of training sets (p=1: all x in {0,1,2}^n x all labels/targets, n<=5 (6); p=2: n<=3 (4); all permutations of distinct values; adjacent-double and scaled variants; structured sets of 8..150 rows) x 3 criteria x max_depth x min_samples_leaf x min_samples_split; tree read back through serde and judged by a brute-force greedy-optimality / routing / leaf-content oracle; every vector over {0..3}^n n<=10 for the arg-sort",
+    technique="exhaustive enumeration of training sets (p=1: all x in {0,1,2}^n x all labels/targets, n<=5 (6); p=2: n<=3 (4); all permutations of distinct values; adjacent-double and scaled variants; structured sets of 8..150 rows, n=150 also in the quick tier) x 3 criteria x max_depth x min_samples_leaf x min_samples_split; tree read back through serde and judged by a brute-force greedy-optimality / routing / leaf-content oracle; every vector over {0..3}^n n<=10 for the arg-sort",
     text="Every clause of the statement is checked on every tree: routing reproduces predict, each leaf's output is a majority / mean of exactly the rows routed to it, leaf sizes and depth respect the limits, every regression split attains the brute-force best SSE reduction among admissible thresholds (ties by gain), growth is complete, classification optimality under msl=1 and distinct values, determinism and power-of-two scaling invariance.",
     note="Quantifier sizes (150 rows, 6 features) are reached only through structured families; gain comparisons at relative 1e-9.",
 )
